@@ -29,7 +29,7 @@ def rank (d : Desc) : NId → Nat :=
   | .taskState m _ => B m + 3
   | .sleepHandle m _ | .mpsc m _ => B m + 4
   | .taskCell m _ => B m + 5
-  | .timerQueue _ | .timerSlot _ _ => 0
+  | .timerQueue _ | .timerSlot _ _ | .hook => 0
   | .conn (.queue ..) => G + 3
   | .conn _ => G
   | .chan _ _ => G + 1
